@@ -97,7 +97,202 @@ func (e *Enc) encodeCall(c *ssa.CallCommon, instr ssa.Instruction, pos token.Pos
 	}
 	res := e.encodeCall1(c, instr, pos)
 	e.noteCall(name, res)
+	e.noteArgs(name, c)
+	e.notePropagation(name, c, instr, res, pos)
 	return res
+}
+
+// noteArgs records the arguments of the latest call to a callee named in some lastarg("callee", i)
+// (the receiver counts as argument 0 of a method).
+func (e *Enc) noteArgs(name string, c *ssa.CallCommon) {
+	if !e.p.Contracts.LastArg[name] {
+		return
+	}
+	var args []ssa.Value
+	if c.IsInvoke() {
+		args = append(args, c.Value)
+	}
+	args = append(args, c.Args...)
+	for i, a := range args {
+		v := e.valOf(a)
+		if v.Tuple != nil || v.Addr != nil {
+			continue
+		}
+		t := e.coerce(v)
+		if t.S == "" {
+			continue
+		}
+		k := fmt.Sprintf("larg|%s|%d|%s", name, i, t.Sort)
+		if _, ok := e.heap0[k]; !ok {
+			e.heap0[k] = e.fresh("larg0", t.Sort)
+		}
+		e.cur.heap[k] = t
+		if e.lastArgTyp == nil {
+			e.lastArgTyp = map[string]types.Type{}
+		}
+		e.lastArgTyp[fmt.Sprintf("%s|%d", name, i)] = a.Type()
+	}
+}
+
+// propSite: a call whose failure the function under contract has promised to pass on (propagates).
+type propSite struct {
+	key    string
+	callee string
+	ord    int
+	pos    token.Pos
+	block  *ssa.BasicBlock
+	pg     Propagate
+}
+
+func isErrorLike(t types.Type) bool {
+	if t == nil {
+		return false
+	}
+	if types.Identical(t, types.Universe.Lookup("error").Type()) {
+		return true
+	}
+	if pt, ok := t.(*types.Pointer); ok {
+		if n, ok := pt.Elem().(*types.Named); ok && n.Obj().Name() == "Error" {
+			return true
+		}
+	}
+	return false
+}
+
+// notePropagation sets the ghost flag of a call site listed in a propagates clause when the call
+// reports a failure (last result non-nil).
+func (e *Enc) notePropagation(name string, c *ssa.CallCommon, instr ssa.Instruction, res []Val, pos token.Pos) {
+	if e.fc == nil || len(e.fc.Propagates) == 0 || len(res) == 0 || instr == nil {
+		return
+	}
+	if _, isDefer := instr.(*ssa.Defer); isDefer {
+		return
+	}
+	rs := c.Signature().Results()
+	if rs.Len() == 0 || rs.Len() != len(res) || !isErrorLike(rs.At(rs.Len()-1).Type()) {
+		return
+	}
+	last := res[len(res)-1]
+	if last.Tuple != nil || last.Addr != nil {
+		return
+	}
+	ord := e.callOrdinal(name, instr)
+	for pi, pg := range e.fc.Propagates {
+		match := false
+		for _, cn := range pg.Callees {
+			if (cn == "*" && !e.p.Contracts.IgnorableErr[name]) || cn == name || cn == fmt.Sprintf("%s#%d", name, ord) {
+				match = true
+			}
+		}
+		for _, cn := range pg.Except {
+			if cn == name || cn == fmt.Sprintf("%s#%d", name, ord) {
+				match = false
+			}
+		}
+		if !match {
+			continue
+		}
+		key := fmt.Sprintf("errp|%d|%s#%d", pi, name, ord)
+		if e.propSites == nil {
+			e.propSites = map[string]*propSite{}
+		}
+		if _, ok := e.propSites[key]; !ok {
+			e.propSites[key] = &propSite{key: key, callee: name, ord: ord, pos: pos, block: instr.Block(), pg: pg}
+			e.propOrder = append(e.propOrder, key)
+		}
+		e.propHit[pi] = true
+		t := e.coerce(last)
+		e.cur.heap[key] = e.define("errp", Or(e.heapGet(e.cur, key), Ne(t, IntLit(0))))
+	}
+}
+
+// propagationAtBackEdge: a failure reported inside the loop has made the function return before the
+// loop goes round again; the flags of the sites inside the loop are therefore clear at the loop head.
+func (e *Enc) propagationAtBackEdge(li *loopInfo, b *ssa.BasicBlock, pos token.Pos) {
+	for _, key := range e.propOrder {
+		ps := e.propSites[key]
+		if !li.blocks[ps.block] {
+			continue
+		}
+		label := ps.pg.Label
+		if label == "" {
+			label = "a-failure-is-passed-on"
+		}
+		e.oblige("propagates", fmt.Sprintf("%s#%d/%s/no-further-iteration", ps.callee, ps.ord, label), ps.pos, Not(e.heapGet(e.cur, key)), ps.pg.Props,
+			fmt.Sprintf("propagates %s: after a failed call the loop does not go round again", ps.callee))
+	}
+}
+
+func (e *Enc) propagationAtLoopHead(li *loopInfo) {
+	if e.fc == nil || len(e.fc.Propagates) == 0 {
+		return
+	}
+	// sites inside the loop need not have been visited yet: clear every flag whose call lies in the loop
+	for _, bb := range e.fn.Blocks {
+		if !li.blocks[bb] {
+			continue
+		}
+		for _, in := range bb.Instrs {
+			ci, ok := in.(ssa.CallInstruction)
+			if !ok {
+				continue
+			}
+			n, kind, _ := e.calleeName(ci.Common())
+			if kind == "builtin" {
+				continue
+			}
+			ord := e.callOrdinal(n, in)
+			for pi := range e.fc.Propagates {
+				key := fmt.Sprintf("errp|%d|%s#%d", pi, n, ord)
+				if _, ok := e.cur.heap[key]; ok {
+					e.cur.heap[key] = False
+				}
+			}
+		}
+	}
+}
+
+// checkPropagation: at every return, a site whose call failed implies a non-nil last result.
+func (e *Enc) checkPropagation(rets []retRec, envOf func(r retRec) *Env) {
+	if e.fc == nil || len(e.fc.Propagates) == 0 {
+		return
+	}
+	sig := e.fn.Signature
+	n := sig.Results().Len()
+	if n == 0 || !isErrorLike(sig.Results().At(n-1).Type()) {
+		e.contractError(e.name, Clause{Kind: "propagates", Line: e.fc.Propagates[0].Line, Src: "propagates"}, fmt.Errorf("the function's last result is not an error"), e.fn.Pos())
+		return
+	}
+	for pi, pg := range e.fc.Propagates {
+		if !e.propHit[pi] {
+			e.contractError(e.name, Clause{Kind: "propagates", Line: pg.Line, Src: "propagates " + strings.Join(pg.Callees, " ")}, fmt.Errorf("propagates matches no error-returning call in the function"), e.fn.Pos())
+		}
+	}
+	for _, key := range e.propOrder {
+		ps := e.propSites[key]
+		var cs []Term
+		for _, r := range rets {
+			if len(r.vals) != n {
+				continue
+			}
+			passed := Ne(e.coerce(r.vals[n-1]), IntLit(0))
+			if ps.pg.Unless != nil {
+				u, err := envOf(r).Eval(ps.pg.Unless)
+				if err != nil {
+					e.contractError(e.name, Clause{Kind: "propagates", Line: ps.pg.Line, Src: "unless " + ps.pg.UnlessSrc}, err, ps.pos)
+				} else {
+					passed = Or(passed, u.T)
+				}
+			}
+			cs = append(cs, Implies(And(r.reach, e.heapGet(r.state, key)), passed))
+		}
+		label := ps.pg.Label
+		if label == "" {
+			label = "a-failure-is-passed-on"
+		}
+		e.oblige("propagates", fmt.Sprintf("%s#%d/%s", ps.callee, ps.ord, label), ps.pos, And(cs...), ps.pg.Props,
+			fmt.Sprintf("propagates %s: a failed call makes the function return a failure", ps.callee))
+	}
 }
 
 // atClausesForModelled: call-site clauses for library functions that have a precise model (they do not
@@ -1436,6 +1631,8 @@ func (e *Enc) loopHeader(b *ssa.BasicBlock, li *loopInfo, preds []*ssa.BasicBloc
 				continue
 			}
 			switch parts[0] {
+			case "larg":
+				e.cur.heap[k] = e.fresh("larg_loop", e.heapGet(e.cur, k).Sort)
 			case "last":
 				e.cur.heap[k] = e.fresh("last_loop", e.heapGet(e.cur, k).Sort)
 			case "cnt":
@@ -1493,6 +1690,7 @@ func (e *Enc) loopHeader(b *ssa.BasicBlock, li *loopInfo, preds []*ssa.BasicBloc
 		e.assumeLoadedInv(e.termOf(phi), phi.Type())
 	}
 	e.reassumeInvariants()
+	e.propagationAtLoopHead(li)
 	e.cur.heap[fmt.Sprintf("ent|%d", li.index)] = True
 	li.headerState = e.cur.clone()
 	// variants
@@ -1578,6 +1776,7 @@ func (e *Enc) backEdges(b *ssa.BasicBlock) {
 			}
 			e.candCheck(li, cd, "preserve", cd.mk(e, bind, e.cur))
 		}
+		e.propagationAtBackEdge(li, b, pos)
 		if e.fc != nil && len(e.fc.IterEnd[li.index]) > 0 && li.headerState != nil {
 			// iterend: what one iteration has done. Loop variables denote their values in this iteration,
 			// old(...) the state at the start of the iteration.
@@ -1862,6 +2061,7 @@ func (e *Enc) checkPost(rets []retRec) {
 			e.obligeNamed(e.name+"/preserved/"+tf, "preserved", tf, pos, g, props, "the function restores "+tf+" of every object before it returns")
 		}
 	}
+	e.checkPropagation(rets, envOf)
 	// struct invariants of objects allocated here must hold when the function returns them
 	e.checkAllocInvariants(pos, rets)
 	// the protocol of a function type this function is a value of
@@ -2042,7 +2242,9 @@ func invMentions(ti *TypeInv, field string) bool {
 
 // typeInvAfterStore: a store to a field mentioned in the owner's invariant must re-establish it
 // (for objects not allocated by this function; those are checked when the function returns).
-func (e *Enc) typeInvAfterStore(a *Addr, pos token.Pos) {
+// typeInvAfterStore checks the clauses of the struct's invariant that mention the stored field (or one of the
+// fields stored just before it in the same run of stores, see moreStoresToSameObject).
+func (e *Enc) typeInvAfterStore(a *Addr, pos token.Pos, earlier []string) {
 	if a.Kind != "field" {
 		return
 	}
@@ -2050,13 +2252,16 @@ func (e *Enc) typeInvAfterStore(a *Addr, pos token.Pos) {
 	if ti == nil {
 		return
 	}
-	fname := a.Struct.Underlying().(*types.Struct).Field(a.Field).Name()
-	if !invMentions(ti, fname) {
-		return
-	}
+	fnames := append([]string{a.Struct.Underlying().(*types.Struct).Field(a.Field).Name()}, earlier...)
 	env := &Env{e: e, vars: map[string]TV{"self": {T: a.Base, Typ: types.NewPointer(a.Struct)}}, state: e.cur, old: e.entry, now0: e.now0}
 	for i, cl := range ti.Clauses {
-		if !strings.Contains(cl.Src, "self."+fname) {
+		mentioned := false
+		for _, fname := range fnames {
+			if strings.Contains(cl.Src, "self."+fname) {
+				mentioned = true
+			}
+		}
+		if !mentioned {
 			continue
 		}
 		t, err := env.Eval(cl.Expr)
